@@ -22,7 +22,7 @@ from odfdo import Document, Frame, Paragraph, Style
 
 from ..engine import Failure, digest
 
-SAMPLES = Path("/repo/tests/samples")
+SAMPLES = Path(os.environ.get("ODFDO_REPO", "/repo")) / "tests/samples"
 NS = {
     "office": "urn:oasis:names:tc:opendocument:xmlns:office:1.0",
     "text": "urn:oasis:names:tc:opendocument:xmlns:text:1.0",
